@@ -112,7 +112,8 @@ func coerceInt(value interface{}) interface{} {
 		}
 		return coerceInt(*value)
 	case float32:
-		if value < float32(math.MinInt32) || value > float32(math.MaxInt32) {
+		// written so that NaN, which compares false with everything, is rejected too
+		if !(value >= float32(math.MinInt32) && value <= float32(math.MaxInt32)) {
 			return nil
 		}
 		return int(value)
@@ -122,7 +123,7 @@ func coerceInt(value interface{}) interface{} {
 		}
 		return coerceInt(*value)
 	case float64:
-		if value < float64(math.MinInt32) || value > float64(math.MaxInt32) {
+		if !(value >= float64(math.MinInt32) && value <= float64(math.MaxInt32)) {
 			return nil
 		}
 		return int(value)
@@ -277,7 +278,7 @@ func coerceFloat(value interface{}) interface{} {
 		if err != nil {
 			return nil
 		}
-		return val
+		return coerceFloat(val)
 	case *string:
 		if value == nil {
 			return nil
